@@ -102,3 +102,4 @@ LOOPS["UIVectorExtend"] = LOOPS["DVectorExtend"]
 LOOPS["UIVectorHasValue"] = [scan("u", "(vc_k < i ==> u->data[vc_k] != id)")]
 LOOPS["UIVectorIndexOf"] = [scan("u", "(vc_k < i ==> u->data[vc_k] != id)")]
 LOOPS["UIVectorSet"] = [fill("d", "val")]
+
